@@ -282,8 +282,17 @@ func driveSpec(args []string) error {
 		docs = append(docs, docv{[]byte(b), bi, "(unedited)"})
 		edits := gen.AllEdits(doc, r)
 		if *nedits > 0 && *nedits < len(edits) {
-			r.Shuffle(len(edits), func(i, j int) { edits[i], edits[j] = edits[j], edits[i] })
-			edits = edits[:*nedits]
+			// sampled tiers always keep the rare edits that only apply at a few pointers (next to an existing $ref)
+			var always, rest []gen.Edit
+			for _, e := range edits {
+				if e.Kind == "ref-xsibling" {
+					always = append(always, e)
+				} else {
+					rest = append(rest, e)
+				}
+			}
+			r.Shuffle(len(rest), func(i, j int) { rest[i], rest[j] = rest[j], rest[i] })
+			edits = append(always, rest[:*nedits]...)
 		}
 		for _, e := range edits {
 			d2 := gen.Apply(doc, e)
